@@ -36,6 +36,7 @@ class _Stop(Exception):
     """a hang-type violation was recorded: do not spend more ceilings on this case"""
 
 
+BLOCKERS = {}
 CTOR_FLAG = [True]   # does the next session object track a resource in its constructor (set by the harness per connection)
 CTOR_RES = {}     # session serial -> resource tracked by the session object's constructor
 REG = {}          # token -> list of Resource
@@ -124,6 +125,13 @@ def _classes():
         def boom(self):
             raise ValueError("boom")
 
+        def block(self, token):
+            # keeps the serving thread busy until the harness says go (on the multiplex server: the one thread that serves everybody)
+            ev = BLOCKERS.get(token)
+            if ev is not None:
+                ev.wait(15)
+            return token
+
         @api.callback
         def unprintable(self):
             # a method flagged @callback (its exceptions are re-raised in the daemon after the error reply) fails with an
@@ -170,7 +178,7 @@ def case_strategy(draw, timeout_shard=False):
     n = draw(st.integers(1, 3))
     conns = [draw(conn_spec) for _ in range(n)]
     order = draw(st.permutations(list(range(n))))
-    return {"conns": conns, "order": list(order), "hook_raises": draw(st.integers(0, 3)) == 0, "linger0": draw(st.booleans())}
+    return {"conns": conns, "order": list(order), "hook_raises": draw(st.integers(0, 3)) == 0, "linger0": draw(st.booleans()), "together": draw(st.integers(0, 2)) == 0}
 
 
 _live = {}
@@ -328,8 +336,53 @@ def run_case(case, servertype=None, commtimeout=None, keep=False):
 
         for info in peers:
             check_open(info, "after setup")
+        # ---- (multiplex) several connections end while the server's one thread is busy with somebody else's call: their endings are
+        #      all there when it looks again - handled in ONE round of its event loop
+        done_together = set()
+        if case.get("together") and servertype == "multiplex" and not commtimeout:
+            simple = [i for i in case["order"] if peers[i]["spec"]["ending"] in ("orderly", "abort-offset", "fin-offset")][:3]
+            if len(simple) >= 2:
+                L["n"] += 1
+                btok = "block%d" % L["n"]
+                BLOCKERS[btok] = threading.Event()
+                helper = live.RawPeer(S.address())
+                try:
+                    hm = helper.handshake("res", "marshal", handshake=btok)
+                    if isinstance(hm, dict) and hm["type"] == wire.CONNECTOK:
+                        helper.send(helper.invoke_msg("res", "block", (btok,), {}, seq=2, ser="marshal"))
+                        live.wait_for(lambda: S.daemon.v_requests_in_flight() >= 1 if hasattr(S.daemon, "v_requests_in_flight") else True, 1.0)
+                        import time as _t
+                        _t.sleep(0.05)      # (stimulus only: the blocking call has reached the method; nothing is judged by the clock)
+                        for i in simple:
+                            info = peers[i]
+                            c, peer = info["spec"], info["peer"]
+                            msg = peer.invoke_msg("res", "hit", (12345,), {}, seq=info["seq"] + 1, ser=c["ser"])
+                            if c["ending"] == "orderly":
+                                peer.close()
+                            else:
+                                peer.send(msg[:c["offset"] % (len(msg) + 1)])
+                                if c["ending"] == "abort-offset":
+                                    peer.abort()
+                                else:
+                                    peer.close()
+                            info["open"] = False
+                            done_together.add(i)
+                finally:
+                    BLOCKERS[btok].set()
+                    helper.read_message()
+                    helper.close()
+                    BLOCKERS.pop(btok, None)
+                live.wait_for(lambda: S.busy_workers() <= baseline + sum(1 for p in peers if p["open"]), CEILING)
+                for i in simple:
+                    if i in done_together:
+                        check_ended(peers[i])
+                for other in peers:
+                    if other["open"]:
+                        check_open(other, "after %d connections ended in one round of the event loop" % len(done_together))
         # ---- end them in the generated order
         for idx in case["order"]:
+            if idx in done_together:
+                continue
             info = peers[idx]
             c = info["spec"]
             peer = info["peer"]
@@ -453,6 +506,8 @@ def _nontrivial(case):
 
 def _labels(case):
     l = ["conns:%d" % len(case["conns"])]
+    if case.get("together") and sum(1 for c in case["conns"] if c["ending"] in ("orderly", "abort-offset", "fin-offset")) >= 2:
+        l.append("several-endings-in-one-event-round(multiplex)")
     for c in case["conns"]:
         l.append("ending:" + c["ending"])
         if c["track"] > c["untrack"]:
